@@ -48,9 +48,29 @@ def small_batch_cases(tier, seed):
                                       "window": rng.choice([0.05, 0.5, 1.0])}]}}
 
 
+def after_result_cases(tier, seed):
+    """The execution-level result record (final result over the response limit) is written while a branch abandoned by an early
+    completion is still alive; the branch goes on after that record was applied - in the first invocation, or in a resumed one where
+    its context was started by an earlier invocation."""
+    i = 0
+    for kind in ("par", "map"):
+        for resumed in (False, True):
+            for nxt in ({"k": "step", "val": "late"}, {"k": "wait", "s": 1}, {"k": "child", "body": [{"k": "step", "val": "in"}]}):
+                pre = [{"k": "wait", "s": 1}] if resumed else []
+                brs = [{"body": pre + [{"k": "step", "val": "fast"}]}, {"body": pre + [{"k": "step", "val": "s0"}, {"k": "gate", "name": "surv"}, dict(nxt), {"k": "step", "val": "tail"}]}]
+                node = {"k": "par", "branches": brs, "cfg": {"min_ok": 1}} if kind == "par" else {"k": "map", "items": [0, 1], "per_item": brs, "body": [], "cfg": {"min_ok": 1}}
+                yield {"label": "straggler-after-execution-record|%s|%s" % (kind, "resumed" if resumed else "first"),
+                       "prog": {"body": [node], "ret": {"big": 6 * 1024 * 1024 + 100}}, "prog_seed": 27900 + i, "pattern": {"p": "plain"}, "max_inv": 8,
+                       "world": {"complete": {}, "timers": "all"},
+                       "holds": [{"match": {"kind": "gate", "name": "surv"}, "until": {"applied": {"Type": "EXECUTION", "Action": "SUCCEED"}}, "delay_ms": 2}],
+                       "opts": {"linger_s": 0.4, "idle_s": 1.0, "hang_s": 3.0}}
+                i += 1
+
+
 def explicit_all(tier, seed):
     yield from explicit(tier, seed)
     yield from small_batch_cases(tier, seed)
+    yield from after_result_cases(tier, seed)
 
 
 SPEC = Spec(
